@@ -1,4 +1,4 @@
-from lena.core import LenaKeyError
+from lena.core import LenaKeyError, LenaTypeError
 from .functions import str_to_list, get_recursively
 # todo: fix imports.
 # import lena.flow.functions
@@ -19,6 +19,11 @@ class DeleteContext():
         # lists, only tuples, or can we mix them?
         if isinstance(key, tuple):
             key = list(key)
+        if not isinstance(key, (list, str)):
+            raise LenaTypeError(
+                "key must be a string or a list of strings, "
+                "{} provided".format(key)
+            )
         if not isinstance(key, list):
             keyl = str_to_list(key)
         else:
@@ -37,14 +42,17 @@ class DeleteContext():
         # todo: improve imports. Remove circular ones.
         from lena.flow import get_data_context
         data, context = get_data_context(value)
+        if not self._keyl:
+            # empty key removes the entire context
+            context.clear()
+            return value
         subcont_key, key = self._keyl[:-1], self._keyl[-1]
         try:
             subcont = get_recursively(context, subcont_key)
         except LenaKeyError:
             return value
 
-        try:
-            del subcont[key]
-        except KeyError:
-            pass
+        if isinstance(subcont, dict):
+            # otherwise there is no such key
+            subcont.pop(key, None)
         return value
